@@ -174,11 +174,30 @@ theorem C06_restore_ancestors (d : Doc) (hv : Table) (f h : Nat) (acc : EntryAcc
   history_restores_ancestors hv f h acc vs hh hval
 #assert_axioms C06_restore_ancestors
 
+/-- **exactness half, first case**: in every reachable session of a conformant document, targeting
+    a SHALLOW history state whose stored states are plain atomic children re-enters *exactly* the
+    stored states — the entry set grows by them and by nothing else (their parent is the history's
+    parent, which the transition's own ancestor pass handles).  For stored compound or parallel
+    children the default / region completion is entered in addition ("what legality needs"); that
+    case and deep history are the part of the exactness half that is still missing. -/
+theorem C06_restore_exact_shallow_atomic (env : Env σ) (d : Doc) (hc : conformantB d = true) (s : Sess σ)
+    (hr : Reach env d s) (f h : Nat) (acc : EntryAcc) (vs : List Nat)
+    (hh : isHistoryState d h = true) (hsh : (getState d h).histType ≠ 2) (hval : tget s.hv h = some vs)
+    (hat : ∀ v ∈ vs, isCompoundState d v = false ∧ isParallelState d v = false) :
+    ∀ x, x ∈ (addDesc d s.hv (f + 2) h acc).toEnter ↔ x ∈ acc.toEnter ∨ x ∈ vs := by
+  apply history_restores_exactly s.hv f h acc vs hh hval
+  intro v hv
+  have hg := C06_stored_values env d hc s hr h vs hval v hv
+  rw [if_neg hsh] at hg
+  exact ⟨hg.1, (hat v hv).1, (hat v hv).2, hg.2⟩
+#assert_axioms C06_restore_exact_shallow_atomic
+
 /-- What is proved of the statement: record (exact), restore (every recorded state is entered;
     the step equation shows the default is not used), default (used iff no value; content position).
     `C06_restore_ancestors`: the ancestors of the stored states below the history's parent are entered too.
     For whole runs: `C06_stored_values` (every stored value of every reachable session consists of
     non-history children / atomic descendants of the history's parent) and `C06_restore_reachable`.
+    Exactness: `C06_restore_exact_shallow_atomic` (shallow history, stored plain atomic children: exactly the stored states).
     **Missing** for the exact characterisation "re-enters exactly the recorded states together with
     the ancestors and parallel siblings needed for a legal configuration": the completeness half
     (nothing else is entered) — it shares the tree lemmas missing for `C01_full`. -/
@@ -215,6 +234,10 @@ example : (computeEntrySet exDoc2 [] [13]).toEnter = [3, 2] ∧
 -- `C06_restore_ancestors` on C01's exDocH (deep history 5 of state 2, stored value [4], 4 ⊂ 3 ⊂ 2): 3 is entered
 example : getProperAncestors exDocH 4 (getState exDocH 5).parent = [3] ∧
     3 ∈ (addDesc exDocH [(5, [4])] 3 5 {}).toEnter := by decide
+
+-- `C06_restore_exact_shallow_atomic` on exDoc2: shallow history 5 with stored [4] (4 is a plain atomic child of 2): exactly 4 is added
+example : (addDesc exDoc2 [(5, [4])] 3 5 {}).toEnter = [4] ∧ isCompoundState exDoc2 4 = false ∧ isParallelState exDoc2 4 = false ∧
+    (getState exDoc2 5).histType ≠ 2 := by decide
 
 -- hypotheses of `C06_stored_values` / `C06_restore_reachable` on a concrete run: exDoc2 is conformant,
 -- and after start-up and event "x" (transition 10 leaves state 2 while 3 is active) the reachable
